@@ -8,6 +8,18 @@ every compatible pair of single deviations (thorough) over
   None       every optional field of one record of each kind, singly, all together, pairs within a record (thorough)
 crossed with the global modes mesh {in file, MESH, MESHA+MESHB} x extra precision {off, subsets} x echo {off, on}
 (quick: all modes x bases, the main modes x every single deviation; thorough: all modes x every single deviation); plus every real data file of the repository.
+Two further dimensions on the base models:
+  over-wide values   in each of 12 families of fields that share one file and one format (10.4e, 10.3e, 20.14e, 14.7e,
+             15.9e, 20.13e, 10.7f of the main file, the same of the MESH file, 15.8e / 15.8f of the companion file, and
+             one family mixing four formats) every assignment of value kinds {fits, negative, three-digit exponent,
+             negative with three-digit exponent (thorough: + the two other sign / exponent combinations)} to the slots
+             of the family, in writing order; every re-read value is judged against the reference rule "the most
+             decimals with which the value fits the width", independent of what was written before it
+  object histories   before the round trip the object answers queries that may build hidden state (block / connection
+             / generator indices, total and specific generation, an earlier write with each mesh carrier) and has
+             its grid edited (reorder blocks / connections / both, rename one / swap two, demote, delete, add,
+             replace a block): every (query, edit) (thorough: every two rounds) x final mesh carrier; the object's
+             own projection after the history is the model the round trip must keep
 
 Oracle (DESIGN C01) for w1 = write(obj); r1 = read(w1); w2 = write(r1); r2 = read(w2); w3 = write(r2):
  * the keyword sequence the reference reader finds in each written file == the sequence the object announced for
@@ -40,10 +52,18 @@ RULE = ('two base models x {no deviation, every single deviation; thorough: ever
         'drop section S / keep only S (+ stated dependencies) / move S to every legal slot / end keyword; list length := n '
         'for every n of the stated range of every chunked or repeated list; field := None for every optional field of '
         'one record of every kind (+ every pair within a record, + all of them, thorough); plus every real data file. '
+        'plus, on the base models: every assignment of over-wide value kinds to the slots of every field family '
+        '(WIDE_FAMILIES x WIDE_KINDS) and every history (query, edit) (thorough: two rounds) of OP_QUERIES x OP_EDITS '
+        'before a round trip with every mesh carrier. '
         'A case is one five-step write/read chain + reference reader + reference writer; non-trivial when the first '
-        'write produced a file; distinct = distinct (base, deviation set, mode) or file')
+        'write produced a file; distinct = distinct (base, deviation set, mode, value kinds, history) or file')
 ASSUMPTIONS = [
-    'values fit their fields at reference precision; names have the full width of their field; MOP digits 0..9',
+    'values fit their fields at reference precision (except in the over-wide value cases: there a value fits at a '
+    'reduced precision, and the reference is the most decimals with which it fits the width - the library\'s '
+    'documented "written with reduced precision"); names have the full width of their field; MOP digits 0..9',
+    'object histories: only what the object holds after the history (its canonical projection) is the model - the '
+    'edits themselves are the subject of other properties; a history step the library refuses (raises) is counted, '
+    'not judged, except a write; deleted / replaced blocks are ones nothing else of the object names',
     'optional field = a field for which the library\'s own reader yields None when it is blank; fields whose '
     'in-memory default is a number (tstart, const_timestep, gravity, the four ROCKS.1.1 fields with 0.0 defaults) '
     'and the record keys (names, counts that fix the number of following records) are not set to None',
@@ -75,10 +95,16 @@ ASSUMPTIONS = [
 BOUNDS = {
     'quick': {'k': 1, 'modes': 'all modes x base models; every single deviation x {3 mesh carriers} x {extra precision '
                                'off, all sections the carrier allows} x {echo off, on}', 'real_files': 'all 11 (13 file/mesh combinations)',
-              'none_fields': 'one record of each kind, every optional field singly + all together'},
+              'none_fields': 'one record of each kind, every optional field singly + all together',
+              'over_wide_values': '12 field families (x MESH carrier for the mesh families) x 4 value kinds ^ all slots '
+                                  '(4; 15.9e: 3) x flavour',
+              'object_histories': '7 queries x 11 edits x 3 final mesh carriers x flavour; two rounds: first query '
+                                  '"indices" x 11 x 7 x 11 x 3 (AUTOUGH2 model)'},
     'thorough': {'k': 2, 'pairs': 'all compatible pairs of single deviations (of the moves: adjacent swap, to the end, '
                                    'to slot 1) + every pair of optional fields within a record',
-                 'modes': 'all modes x every single deviation', 'real_files': 'all 11 (13 file/mesh combinations)'},
+                 'modes': 'all modes x every single deviation', 'real_files': 'all 11 (13 file/mesh combinations)',
+                 'over_wide_values': 'as quick + 6 value kinds ^ 3 slots',
+                 'object_histories': 'as quick + every two rounds (7 x 11)^2 x 3 (AUTOUGH2 model)'},
 }
 TECHNIQUE = ('deviation-bounded exhaustive enumeration of data objects, each driven through the real five-step '
              'write/read chain and compared with a reference column reader, a reference Fortran-style writer and a '
@@ -1047,6 +1073,10 @@ def enumerate_cases(tier):
                         ('move', 'perm', 'drop', 'only'):
                     continue     # a late section is paired with the deviations of the section order only
                 cases.append({'base': flavour, 'devs': [a, b], 'mode': DEFAULT_MODE})
+    for c in wide_cases(tier):
+        cases.append({'base': c['base'], 'devs': [], 'mode': {'mesh': c['mesh'], 'xp': None, 'echo': None},
+                      'wide': c['wide'], 'kinds': c['kinds']})
+    cases += ophist_cases(tier)
     return cases
 
 
@@ -1126,18 +1156,30 @@ def run_unit(unit, tier, rec):
                 rec.violation(sig, what, case)
             break
         rec.case(case_key(case), nontrivial=info.get('written', False), outcome=info.get('outcome'))
-        rec.count('k=%d' % len(case['devs']), 1)
+        if 'wide' in case:
+            rec.count('over_wide_value_cases', 1)
+            rec.count('over_wide_values_judged', 2 * len([k for k in case['kinds'] if k]))
+        elif 'hist' in case:
+            rec.count('object_history_cases:depth=%d' % len(case['hist']), 1)
+            rec.count('object_history_steps_refused_by_the_library', info.get('refused', 0))
+        else:
+            rec.count('k=%d' % len(case['devs']), 1)
         rec.count('chain_steps', info.get('steps', 0))
         for sig, what in viol:
             rec.violation(sig, what, case)
-        if not case['devs'] and case['mode'] == DEFAULT_MODE:
+        if not case['devs'] and case['mode'] == DEFAULT_MODE and 'wide' not in case and 'hist' not in case:
             rec.sample({'case': case, 'sections': info.get('sections'), 'bytes': info.get('bytes')}, force=True)
     if cases:
         rec.sample({'case': cases[0]})
 
 
 def case_key(case):
-    return repr((case['base'], [tuple(d) for d in case['devs']], sorted(case['mode'].items())))
+    key = (case['base'], [tuple(d) for d in case['devs']], sorted(case['mode'].items()))
+    if 'wide' in case:
+        key += ('wide', case['wide'], tuple(case['kinds']))
+    if 'hist' in case:
+        key += ('hist', tuple(tuple(h) for h in case['hist']))
+    return repr(key)
 
 
 def replay(case):
@@ -1147,6 +1189,8 @@ def replay(case):
         return run_case(case)[0]
     case = dict(case)
     case['devs'] = [_tuplify(d) for d in case['devs']]
+    if 'hist' in case:
+        case['hist'] = [_tuplify(h) for h in case['hist']]
     return run_case(case)[0]
 
 
@@ -1397,6 +1441,9 @@ def run_case(case):
     core.load_library()
     if 'history' in case:
         return _guarded(lambda: _history(case['history']), 'history:' + case['history'][0], CASE_TIMEOUT, 'history')
+    if 'wide' in case:
+        return _guarded(lambda: _wide(case), case['base'][0], CASE_TIMEOUT,
+                        '%s/%s/wide' % (case['base'][0], case['mode']['mesh']))
     res = model_of_case(case)
     if res is None:
         return [], {'outcome': 'not-applicable', 'written': False}
@@ -1416,6 +1463,10 @@ def run_case(case):
                 return [], {'outcome': 'not-applicable', 'written': False}
     late = [dv[1] for dv in case['devs'] if dv[0] == 'late']
     primer = '%s/%s/%s' % (flavour[0], mode['mesh'], 'std' if not mode['xp'] else ('xp+echo' if mode['echo'] else 'xp'))
+    if 'hist' in case:
+        hist = [tuple(h) for h in case['hist']]
+        return _guarded(lambda: _chain(M, order, mode, flavour, end_kw, late, hist=hist), flavour[0], CASE_TIMEOUT,
+                        primer + '/hist')
     return _guarded(lambda: _chain(M, order, mode, flavour, end_kw, late), flavour[0], CASE_TIMEOUT, primer)
 
 
@@ -1636,11 +1687,11 @@ def _order_check(primer):
     return viol
 
 
-def _chain(M, order, mode, flavour, end_kw, late=()):
+def _chain(M, order, mode, flavour, end_kw, late=(), hist=None):
     import t2data
     viol = []
     info = {'written': False, 'steps': 0}
-    inp = flavour[0]
+    inp = flavour[0] if not hist else flavour[0] + '|after=' + '>'.join('%s,%s' % h for h in hist)
     d = _workdir()
     with _quiet():
         dat = build(M, [s_ for s_ in order if s_ not in late])
@@ -1652,6 +1703,29 @@ def _chain(M, order, mode, flavour, end_kw, late=()):
         _diff_viol('build', diffs, inp, viol, 'object built from the model does not project back to it')
         info['outcome'] = 'build-mismatch'
         return viol, info
+    if hist:
+        # the object goes through queries, earlier writes and grid edits first; what it holds afterwards (its
+        # canonical projection - the edits themselves are not judged here) is the model the round trip must keep
+        for n, (q, e) in enumerate(hist):
+            try:
+                with _quiet():
+                    _op_query(dat, q, d, n)
+            except core.CaseTimeout:
+                raise
+            except Exception as ex:
+                if q.startswith('write:'):
+                    viol.append(_exc_sig('history-' + q, ex, inp))
+                    info['outcome'] = 'history-write-raised'
+                    return viol, info
+                info['refused'] = info.get('refused', 0) + 1
+            try:
+                with _quiet():
+                    _op_edit(dat, e, n)
+            except core.CaseTimeout:
+                raise
+            except Exception:
+                info['refused'] = info.get('refused', 0) + 1
+        M = t2canon.canon(dat)
     expect = expected_for_mode(M, mode)
     rock_names = [r['name'] for r in M.get('ROCKS') or []]
     kw = {}
@@ -1831,8 +1905,9 @@ def _chain(M, order, mode, flavour, end_kw, late=()):
         return viol, info
     f3 = _files_of(d, 'w3', mode['mesh'])
     _compare_files(f2, f3, False, 'w3-vs-w2', inp, viol)
-    # ---- the model as a Fortran program would write it, read by the library
-    if mode['mesh'] != 'binary':
+    # ---- the model as a Fortran program would write it, read by the library (does not involve the object: not
+    # repeated for every history of it)
+    if mode['mesh'] != 'binary' and not hist:
         viol += _ref_written(M, order, exp_main, mode, flavour, end_kw, d, inp)
     info['outcome'] = 'ok' if not viol else 'violations'
     return viol, info
@@ -1905,6 +1980,299 @@ def _ref_written(M, order, exp_main, mode, flavour, end_kw, d, inp):
         _diff_viol(tag, diffs, inp, viol,
                    'library reading the model as written by the reference Fortran-style writer (%s exponents)' % style)
     return viol
+
+
+# --------------------------------------------------------------------------------------------------
+# histories of one object before the round trip: queries and earlier writes (which may build hidden state),
+# then edits of its grid
+
+OP_QUERIES = ['none', 'indices', 'total_generation', 'specific_generation', 'write:in', 'write:mesh', 'write:binary']
+OP_EDITS = ['none', 'reorder:blocks-reversed', 'reorder:blocks-interleaved', 'reorder:connections-reversed',
+            'reorder:both', 'rename:one', 'rename:swap', 'demote:first', 'delete', 'add', 'replace']
+
+
+def ophist_cases(tier):
+    """Every single round (query, edit) x mesh carrier of the final round trip x flavour; every two rounds
+    (query, edit, query, edit) on the AUTOUGH2 model x mesh carrier - quick: the first query is 'indices'."""
+    out = []
+    for flavour in ('AUTOUGH2', 'TOUGH2'):
+        for mesh in MESH_MODES:
+            mode = {'mesh': mesh, 'xp': None, 'echo': None}
+            for q in OP_QUERIES:
+                for e in OP_EDITS:
+                    out.append({'base': flavour, 'devs': [], 'mode': mode, 'hist': [(q, e)]})
+            if flavour == 'AUTOUGH2':
+                for q1 in (OP_QUERIES if tier == 'thorough' else ['indices']):
+                    for e1 in OP_EDITS:
+                        for q2 in OP_QUERIES:
+                            for e2 in OP_EDITS:
+                                if (q2, e2) != ('none', 'none'):
+                                    out.append({'base': flavour, 'devs': [], 'mode': mode,
+                                                'hist': [(q1, e1), (q2, e2)]})
+    return out
+
+
+def _op_query(dat, q, d, n):
+    g = dat.grid
+    if q == 'indices':
+        for b in list(g.blocklist):
+            g.block_index(b.name)
+        for c in list(g.connectionlist):
+            g.connection_index(tuple(b.name for b in c.block))
+        for x in list(dat.generatorlist):
+            dat.generator_index((x.block, x.name))
+    elif q == 'total_generation':
+        dat.total_generation()
+    elif q == 'specific_generation':
+        dat.specific_generation()
+    elif q.startswith('write:'):
+        sub = os.path.join(d, 'h%d' % n)
+        os.makedirs(sub)
+        dat.write(os.path.join(sub, 'model.dat'), _mesh_arg(d, 'h%d' % n, q[6:]))
+        dat.meshfilename = ''        # (the name of the mesh file is kept by the object: the next write names its own)
+
+
+def _unreferenced_block(dat):
+    """Last block of the grid that nothing else of the object names (None when there is none)."""
+    g = dat.grid
+    used = set(x.block for x in dat.generatorlist) | set(dat.incon)
+    pb = dat.parameter.get('print_block')
+    if isinstance(pb, str):
+        used.add(pb)
+    items = list(dat.history_block or []) + list(dat.history_generator or []) + list(dat.history_connection or [])
+    so = dat.short_output or {}
+    items += list(so.get('block') or []) + list(so.get('connection') or [])
+    for it in items:
+        if isinstance(it, str):
+            used.add(it)
+        elif isinstance(it, tuple):
+            used.update(it)
+        elif hasattr(it, 'block'):
+            used.update(b.name for b in it.block)
+        else:
+            used.add(it.name)
+    free = [b for b in g.blocklist if b.name not in used]
+    return free[-1] if free else None
+
+
+def _op_edit(dat, e, n):
+    from t2grids import t2block, t2connection
+    g = dat.grid
+    names = [b.name for b in g.blocklist]
+    cnames = [tuple(b.name for b in c.block) for c in g.connectionlist]
+    if e == 'reorder:blocks-reversed':
+        g.reorder(block_names=names[::-1])
+    elif e == 'reorder:blocks-interleaved':
+        g.reorder(block_names=names[1::2] + names[0::2])
+    elif e == 'reorder:connections-reversed':
+        g.reorder(connection_names=cnames[::-1])
+    elif e == 'reorder:both':
+        g.reorder(block_names=names[::-1], connection_names=cnames[::-1])
+    elif e == 'rename:one':
+        dat.rename_blocks({names[0]: 'zr%s 7' % 'ab'[n]})
+    elif e == 'rename:swap':
+        dat.rename_blocks({names[0]: names[1], names[1]: names[0]})
+    elif e == 'demote:first':
+        g.demote_block(names[0])
+    elif e == 'delete':
+        b = _unreferenced_block(dat)
+        if b is not None:
+            g.delete_block(b.name)
+    elif e == 'add':
+        nb = t2block('zn%s 3' % 'ab'[n], V(3 + n, 4), g.rocktypelist[0], centre=[V(4, 1), V(5, 1), V(6, 1, -1)],
+                     ahtx=V(7), pmx=V(8))
+        g.add_block(nb)
+        g.add_connection(t2connection([g.blocklist[0], nb], 1, [V(1, 1), V(2, 1)], V(3, 2), 0.0, V(4, -1)))
+    elif e == 'replace':
+        b = _unreferenced_block(dat)
+        if b is not None:
+            g.add_block(t2block(b.name, V(5 + n, 2), b.rocktype, centre=[V(1, 1), V(2, 1), V(3, 1, -1)],
+                                ahtx=V(4), pmx=V(5)))
+
+
+# --------------------------------------------------------------------------------------------------
+# over-wide values: several values of one file that need their precision cut to fit, in every order
+
+
+def _carried(val, fmt):
+    """Reference: the text of a real in a '<w>.<p><e|f>' field.  The library's documented rule for a value too wide
+    for its field is 'written with reduced precision': the field carries the most decimals (<= p) with which
+    the value still fits the width - whatever else was written to the file before it."""
+    w, p, typ = int(fmt[:-1].split('.')[0]), int(fmt[:-1].split('.')[1]), fmt[-1]
+    for q in range(p, -1, -1):
+        s = ('%%%d.%d%s' % (w, q, typ)) % val
+        if len(s) <= w:
+            return s
+    raise ValueError('%r does not fit %s at any precision' % (val, fmt))
+
+
+def _wide_value(kind, fmt, i):
+    """Value of the given kind for slot i (another mantissa per slot)."""
+    k = 3 * i + 1
+    if fmt[-1] == 'e':
+        sign, e = {'p2': (1, 2 + i), 'n2': (-1, 1 + i), 'p3': (1, 100 + i), 'n3': (-1, -100 - i),
+                   'p-3': (1, -101 - i), 'n+3': (-1, 102 + i)}[kind]
+        return V(k, e, sign)
+    w, p = [int(x) for x in fmt[:-1].split('.')]
+    nint = w - p - 1                       # integer digits of a positive value that just fits
+    sign, digits = {'p2': (1, 1), 'n2': (-1, nint), 'p3': (1, nint + 1), 'n3': (-1, nint + 1),
+                    'p-3': (1, nint + 2), 'n+3': (-1, 1)}[kind]
+    return V(k, digits - 1, sign)
+
+
+_B0, _B3, _B4 = BLOCKS[0], BLOCKS[3], BLOCKS[4]
+# family -> (mesh carriers, extra precision, slots [(path in the canonical model, reference format)]): slots in
+# writing order, two on one line, one in another record of the same kind, one in another record kind
+WIDE_FAMILIES = [
+    ('main:10.4e', ('in',), None, [(('ROCKS', 0, 'conductivity'), '10.4e'), (('ROCKS', 0, 'specific_heat'), '10.4e'),
+                                   (('PARAM', 'gravity'), '10.4e'), (('ROCKS', 1, 'density'), '10.4e')]),
+    ('main:10.3e', ('in',), None, [(('ROCKS', 2, 'rp', 'parameters', 0), '10.3e'),
+                                   (('ROCKS', 2, 'rp', 'parameters', 1), '10.3e'), (('PARAM', 'tstart'), '10.3e'),
+                                   (('ROCKS', 2, 'cp', 'parameters', 0), '10.3e')]),
+    ('main:20.14e', ('in',), None, [(('PARAM', 'default_incons', 0), '20.14e'), (('PARAM', 'default_incons', 1), '20.14e'),
+                                    (('INCON', _B0, 'variables', 0), '20.14e'), (('INCON', _B3, 'variables', 1), '20.14e')]),
+    ('main:14.7e', ('in',), None, [(('GENER', 2, 'time', 1), '14.7e'), (('GENER', 2, 'rate', 0), '14.7e'),
+                                   (('GENER', 3, 'enthalpy', 0), '14.7e'), (('GENER', 3, 'rate', 1), '14.7e')]),
+    ('main:15.9e', ('in',), None, [(('INCON', _B0, 'porosity'), '15.9e'), (('INCON', _B3, 'porosity'), '15.9e'),
+                                   (('INCON', _B4, 'porosity'), '15.9e')]),
+    ('main:20.13e', ('in',), None, [(('INDOM', 'dfalt', 0), '20.13e'), (('INDOM', 'dfalt', 1), '20.13e'),
+                                    (('INDOM', 'ATMOS', 0), '20.13e'), (('INDOM', 'ATMOS', 1), '20.13e')]),
+    ('main:mixed', ('in',), None, [(('ROCKS', 0, 'conductivity'), '10.4e'), (('PARAM', 'tstart'), '10.3e'),
+                                   (('PARAM', 'default_incons', 0), '20.14e'), (('INCON', _B0, 'porosity'), '15.9e')]),
+    ('mesh:10.4e', ('in', 'mesh'), None, [(('ELEME', 0, 'volume'), '10.4e'), (('ELEME', 0, 'ahtx'), '10.4e'),
+                                          (('CONNE', 0, 'area'), '10.4e'), (('ELEME', 1, 'pmx'), '10.4e')]),
+    ('mesh:10.3e', ('in', 'mesh'), None, [(('ELEME', 0, 'x'), '10.3e'), (('ELEME', 0, 'z'), '10.3e'),
+                                          (('CONNE', 0, 'sigma'), '10.3e'), (('ELEME', 1, 'y'), '10.3e')]),
+    ('mesh:10.7f', ('in', 'mesh'), None, [(('CONNE', 0, 'dircos'), '10.7f'), (('CONNE', 1, 'dircos'), '10.7f'),
+                                          (('CONNE', 2, 'dircos'), '10.7f'), (('CONNE', 3, 'dircos'), '10.7f')]),
+    ('pdat:15.8e', ('in',), XP_ALL, [(('ROCKS', 0, 'conductivity'), '15.8e'), (('ROCKS', 0, 'specific_heat'), '15.8e'),
+                                     (('ELEME', 0, 'volume'), '15.8e'), (('GENER', 0, 'gx'), '15.8e')]),
+    ('pdat:15.8f', ('in',), XP_ALL, [(('CONNE', 0, 'dircos'), '15.8f'), (('CONNE', 1, 'dircos'), '15.8f'),
+                                     (('CONNE', 2, 'dircos'), '15.8f'), (('CONNE', 3, 'dircos'), '15.8f')]),
+]
+WIDE_KINDS = {'quick': ['p2', 'n2', 'p3', 'n3'], 'thorough': ['p2', 'n2', 'p3', 'n3', 'p-3', 'n+3']}
+
+
+def wide_cases(tier):
+    """Every assignment of the four quick value kinds (sign x exponent width; p2 = fits) to all slots of every
+    family (thorough: also the six kinds on the first three slots)."""
+    out = []
+    for flavour in ('AUTOUGH2', 'TOUGH2'):
+        for fam, carriers, xp, slots in WIDE_FAMILIES:
+            if xp and flavour != 'AUTOUGH2':
+                continue
+            for mesh in carriers:
+                seen = set()
+                plans = [(WIDE_KINDS['quick'], len(slots))]
+                if tier == 'thorough':
+                    plans.append((WIDE_KINDS['thorough'], 3))
+                for kinds, n in plans:
+                    for assign in itertools.product(kinds, repeat=n):
+                        # (a slot without a kind keeps the value of the base model)
+                        assign = tuple(assign) + (None,) * (len(slots) - n)
+                        if assign in seen:
+                            continue
+                        seen.add(assign)
+                        out.append({'base': flavour, 'wide': fam, 'mesh': mesh, 'kinds': list(assign)})
+    return out
+
+
+def _path_get(M, path):
+    for p in path:
+        M = M[p]
+    return M
+
+
+def _path_set(M, path, v):
+    for p in path[:-1]:
+        M = M[p]
+    M[path[-1]] = v
+
+
+def _wide(case):
+    """write -> read -> write of the base model with over-wide values in the slots of one family: every re-read
+    slot value (library reader and reference reader) equals the value its field carries by the reference rule,
+    the rest of the model is unchanged, the second write reproduces the first."""
+    import t2data
+    flavour, inp = case['base'], case['base'][0]
+    fam, carriers, xp, slots = [f for f in WIDE_FAMILIES if f[0] == case['wide']][0]
+    mode = {'mesh': case['mode']['mesh'], 'xp': list(xp) if xp else None, 'echo': False if xp else None}
+    viol, info = [], {'written': False, 'steps': 0}
+    M, order = base_model(flavour)
+    if mode['mesh'] != 'in':
+        M, order = _prune(*_drop_keys(M, order, ['SHORT']))
+    M = copy.deepcopy(M)
+    E = copy.deepcopy(M)
+    want = []
+    for i, ((path, fmt), kind) in enumerate(zip(slots, case['kinds'])):
+        if kind is None:
+            continue
+        v = _wide_value(kind, fmt, i)
+        _path_set(M, path, v)
+        text = _carried(v, fmt)
+        _path_set(E, path, float(text))
+        want.append((path, fmt, kind, v, float(text), text.strip()))
+    d = _workdir()
+    with _quiet():
+        dat = build(M, order)
+    kw = {'extra_precision': list(xp), 'echo_extra_precision': False} if xp else {}
+    tag = 'wide:%s' % fam
+    try:
+        with _quiet():
+            dat.write(os.path.join(d, 'w1', 'model.dat'), _mesh_arg(d, 'w1', mode['mesh']), **kw)
+    except core.CaseTimeout:
+        raise
+    except Exception as e:
+        return [_exc_sig('write(obj):' + tag, e, inp)], dict(info, outcome='w1-raised')
+    info['written'] = True
+    _size_guard(d, 'w1', SIZE_CAP, 'write(obj)', inp)
+    f1 = _files_of(d, 'w1', mode['mesh'])
+
+    def judge(step, C):
+        for path, fmt, kind, v, carried, text in want:
+            try:
+                got = _path_get(C, path)
+            except (KeyError, IndexError, TypeError):
+                got = None
+            if got is None or float(got) != carried:
+                pos = [p for p, f, k, x, c, t in want].index(path)
+                before = '+'.join(k for p, f, k, x, c, t in want[:pos]) or 'first'
+                viol.append(('C01|%s|%s|value-not-to-the-digits-of-its-field|%s|%s|after=%s|%s'
+                             % (step, tag, fmt, kind, before, inp),
+                             '%s: %s = %r comes back as %r; a %s field carries %r (%s), values written to the file '
+                             'before it: %s' % (step, '/'.join(str(p) for p in path), v, got, fmt, text, carried, before)))
+        diffs = t2canon.compare(E, C, **_cmp_kwargs(mode, 'wide'))
+        _diff_viol(step + '|' + tag, diffs, inp, viol, 'model with over-wide values: the rest of the model')
+    rock_names = [r['name'] for r in M.get('ROCKS') or []]
+    try:
+        R, seqs, end = _ref_read_files(f1, mode, flavour, rock_names)
+        judge('refread(w1)', _norm_model(R))
+    except t2layout.RefReadError as e:
+        viol.append(('C01|refread(w1)|%s|unreadable|%s.%s|%s' % (tag, e.rec, e.field, inp),
+                     'reference reader cannot read the written file: %s' % e))
+    try:
+        with _quiet():
+            r1 = t2data.t2data(os.path.join(d, 'w1', 'model.dat'), _mesh_arg(d, 'w1', mode['mesh']))
+    except core.CaseTimeout:
+        raise
+    except Exception as e:
+        viol.append(_exc_sig('read(w1):' + tag, e, inp))
+        return viol, dict(info, outcome='r1-raised')
+    info['steps'] = 2
+    judge('read(w1)', t2canon.canon(r1))
+    try:
+        with _quiet():
+            r1.write(os.path.join(d, 'w2', 'model.dat'), _mesh_arg(d, 'w2', mode['mesh']))
+    except core.CaseTimeout:
+        raise
+    except Exception as e:
+        viol.append(_exc_sig('write(r1):' + tag, e, inp))
+        return viol, dict(info, outcome='w2-raised')
+    info['steps'] = 3
+    _size_guard(d, 'w2', SIZE_CAP, 'write(r1)', inp)
+    _compare_files(f1, _files_of(d, 'w2', mode['mesh']), True, 'w2-vs-w1|' + tag, inp, viol)
+    info['outcome'] = 'ok' if not viol else 'violations'
+    return viol, info
 
 
 # --------------------------------------------------------------------------------------------------
@@ -2249,4 +2617,8 @@ def finalize(rec, tier):
             'dimensions': {'sections': 'drop/only/move crossed completely (k=1)',
                            'lengths': 'every n of the stated range (k=1); boundary values in pairs',
                            'none': 'every optional field singly, all together; pairs within a record (thorough)',
-                           'modes': 'crossed with the base (quick) / with every single deviation (thorough)'}}
+                           'modes': 'crossed with the base (quick) / with every single deviation (thorough)',
+                           'over_wide_values': 'families x kinds^slots, complete',
+                           'object_histories': 'queries x edits (x queries x edits) x final carrier, complete'},
+            'over_wide_value_cases': len([c for c in cases if 'wide' in c]),
+            'object_history_cases': len([c for c in cases if 'hist' in c])}
